@@ -178,11 +178,16 @@ impl Value {
             Self::UnaryOp(op, v) => {
                 let value = v.do_evaluate(scope, true)?;
                 match (op, value) {
-                    (Operator::Not, css::Value::Numeric(v, _)) => {
-                        (v.value == 0.into()).into()
+                    // Note: A map or paren operand is kept as is, since
+                    // e.g. `supports(not (a: b))` is parsed as a value.
+                    (Operator::Not, v)
+                        if !matches!(
+                            v,
+                            css::Value::Map(_) | css::Value::Paren(_)
+                        ) =>
+                    {
+                        (!v.is_true()).into()
                     }
-                    (Operator::Not, css::Value::True) => css::Value::False,
-                    (Operator::Not, css::Value::False) => css::Value::True,
                     (Operator::Minus, css::Value::Numeric(v, _)) => {
                         css::Value::Numeric(-&v, true)
                     }
